@@ -72,7 +72,6 @@ class FailSafe:
         elif exc_type is not None:
             return False  # Dont handle the exception for the caller
 
-        self._error_counter = 0
         return True
 
     @property
@@ -104,6 +103,9 @@ class FailSafe:
             ProxyErrorException: if the error header exists.
         """
         if _HEADER_ERROR_KEY not in headers:
+            # A response came back through the Proxy without an error:
+            # only this clears the count (not a call that bypassed the Proxy).
+            self._error_counter = 0
             return
 
         errorCode = headers[_HEADER_ERROR_KEY]
